@@ -137,11 +137,14 @@ Spec == Init /\ [][Next]_vars
 
 -------------------------------------------------------------------------------
 \* Observable projection: Snapshot() and the state file, each identified against
-\* the reference states.
+\* the reference states; `same`: a published state (revision # 0) is exactly -- not only up to
+\* normalisation -- the state a restart would load from the state file (C18_PublishedIsPersisted
+\* at the level of the stored representation: a restart changes nothing).
 StateView(k) == [sid |-> k, rev |-> Rev(k), app |-> App(k), valid |-> TRUE]
 Proj == [snap |-> StateView(mem),
          disk |-> IF disk = -1 THEN [sid |-> -1, rev |-> 0, app |-> 0, valid |-> TRUE]
-                  ELSE StateView(disk)]
+                  ELSE StateView(disk),
+         same |-> (mem # 0 => disk = mem)]
 
 -------------------------------------------------------------------------------
 \* Property C18.
@@ -162,6 +165,10 @@ C18_RefRevision ==
   \A p \in Pos : cfg.rev[p + 1] = cfg.rev[p] + (IF cfg.cls[p] = "changed" THEN 1 ELSE 0)
 C18_RefLogical ==
   \A p \in Pos : cfg.lfp[p + 1] # cfg.lfp[p] => cfg.cls[p] = "changed"
+\* ... and only such a command does: a command that leaves the logical state as it was (e.g. the
+\* stored record proposed again with its list fields in another order) is not counted.
+C18_RefCounted ==
+  \A p \in Pos : cfg.cls[p] = "changed" => cfg.lfp[p + 1] # cfg.lfp[p]
 \* Rejected and no-op commands leave the state untouched.
 C18_RefUntouched ==
   \A p \in Pos : cfg.cls[p] \in {"noop", "rejected"} =>
